@@ -68,11 +68,13 @@ class GeneralGlobalCipher(AbstractXDlmsApdu):
         out.append(self.TAG)
         out.append(len(self.system_title))
         out.extend(self.system_title)
-        out.append(
-            len(
-                self.security_control.to_bytes()
-                + self.invocation_counter.to_bytes(4, "big")
-                + self.ciphered_text
+        out.extend(
+            a_xdr.encode_variable_integer(
+                len(
+                    self.security_control.to_bytes()
+                    + self.invocation_counter.to_bytes(4, "big")
+                    + self.ciphered_text
+                )
             )
         )
         out.extend(self.security_control.to_bytes())
